@@ -120,6 +120,8 @@ def _check(impl, scn, stats=None):
     epoch = {}         # TCP socket -> number of the connection it is on
     tcp_noise = {}     # TCP socket -> number of write/close/destroy/open calls so far
     conn_h = {}        # connect / accept handler -> socket it establishes
+    pending_connect_cancelled = False     # some socket's connect was cancelled while pending (it keeps its channel)
+    killed_objs = set()                   # objects that were cancelled / closed / destroyed / re-opened / moved
     def noise_by_others(s):
         return sum(v for o, v in tcp_noise.items() if o != s)
 
@@ -167,6 +169,23 @@ def _check(impl, scn, stats=None):
             elif st and st.get("why") and d.get("ec") != "aborted":
                 fails.append(("aborted_with_operation_aborted", "%s (%s on %s) was outstanding at `%s` and cannot have completed by then (%s), yet it was invoked with ec=%s"
                               % (h, st["op"], st["obj"], st["by"], st["why"], d.get("ec")), obj))
+            elif st and st.get("t_hit") is not None and d.get("ec") != "aborted" and not thrown \
+                    and not (st["kind"] == "connect" and d.get("ec") == "refused"):
+                # an operation that "had already completed" at the intervention has its completion posted:
+                # it runs at that very instant. One that runs at a LATER virtual time was still outstanding
+                # and had to be aborted (a refused connect parked in its 50 ms timer excepted, DESIGN.md section 6)
+                try: t_done = int(d.get("t", ""))
+                except ValueError: t_done = None
+                if t_done is not None and st["t_hit"] < INF and t_done > st["t_hit"]:
+                    fails.append(("aborted_with_operation_aborted", "%s (%s on %s) was still outstanding after `%s` (at t <= %d): it completed at t=%d, with ec=%s instead of operation_aborted"
+                                  % (h, st["op"], st["obj"], st.get("by0"), st["t_hit"], t_done, d.get("ec")), obj))
+            if st and h not in done and d.get("ec") == "aborted" and not st["hit"] and not st.get("soft") and not thrown and not stopped \
+                    and not pending_connect_cancelled and not (st["kind"] == "accept" and (st.get("peer") in killed_objs or not st.get("lst"))):
+                # operation_aborted is what cancel / close / destroy / a superseding operation produce: an
+                # operation whose object nobody touched keeps waiting (known corner excepted: a connector whose
+                # pending connect was cancelled keeps its channel, and what it sends later reaches the acceptor)
+                fails.append(("aborted_without_cause", "%s (%s on %s) was invoked with operation_aborted although %s was never cancelled, closed, destroyed, re-armed or given another operation of that kind"
+                              % (h, st["op"], st["obj"], st["obj"]), obj))
             done[h] = (d.get("ec"), pos)
             if st:
                 ops = live_ops.get(st["obj"], {}).get(st["kind"], [])
@@ -196,6 +215,8 @@ def _check(impl, scn, stats=None):
                             if not started[old]["hit"]: hit_now.append(old)
                             started[old]["hit"] = True
                     st = dict(obj=obj, kind=kind, pos=pos, hit=False, op=m)
+                    if m in ("accept", "accept_ep") and len(op) > 1: st["peer"] = op[1]
+                    if kind == "accept": st["lst"] = bool(listening.get(obj))   # an accept on an acceptor that is not open / listening is aborted at once
                     # evidence, at the start, for "cannot complete before …"
                     if kind == "wait": st["expiry"] = expiry.get(obj)
                     elif kind == "resolve" and len(op) > 1 and op[1] in dns and not _is_literal(op[1]):
@@ -207,6 +228,17 @@ def _check(impl, scn, stats=None):
                     live_ops.setdefault(obj, {}).setdefault(kind, []).append(h)
                     if m == "connect": conn_h[h] = obj
                     elif m in ("accept", "accept_ep", "accept_new") and len(op) > 1: conn_h[h] = op[1]
+            if m in ("recv_nb", "read_nb", "available") and obj[0] in "su":
+                # a synchronous receive is an operation of the same kind: it may abort an outstanding wait / receive
+                for h in live_ops.get(obj, {}).get("recv", []): started[h]["soft"] = True
+            if m in ("accept", "accept_ep") and len(op) > 1:
+                # accepting INTO a socket closes it first: whatever was outstanding on it is aborted
+                for hs in live_ops.get(op[1], {}).values():
+                    for h in hs: started[h]["hit"] = True
+            if m in KILL or m in ("open", "move"):
+                killed_objs.add(obj)
+                if m in ("cancel", "cancel_one") and obj[0] == "s" and live_ops.get(obj, {}).get("connect"):
+                    pending_connect_cancelled = True
             if m in KILL or m in ("expires_at", "expires_after", "open", "send_to"):
                 kinds = None
                 if m in ("expires_at", "expires_after"): kinds = ["wait"]
@@ -219,6 +251,9 @@ def _check(impl, scn, stats=None):
                             started[h]["hit"] = True
             # the first intervention that hits an outstanding operation decides whether it must be aborted
             for h in hit_now:
+                if h not in done and "t_hit" not in started[h]:
+                    # the intervention happened no later than the next clock value the trace shows
+                    started[h]["t_hit"] = hi[idx]; started[h].setdefault("by0", " ".join(tk[1:i]))
                 if h in done or started[h].get("why"): continue
                 why = must_abort(h, m)
                 if why:
